@@ -77,7 +77,6 @@ CORE_DROP = {"t = Vector([x, y])", "u = t << [7, 8]", "u = t['b', 'a']", "u = t.
              "x[0:2] = [7, 8]", "t[0, 0] = 1.5", "del tup; gc.collect()", "y = x + 1", "u = t >> {'c': [7, 8, 9]}",
              "y = Vector([4, 5, 6], name='b')", "t[0, 1] = 9", "del z; gc.collect()"}
 CORE = [o for o in OPS if o[1] not in CORE_DROP]
-CORE5 = [o for o in CORE if o[1] not in ("y = x[0:2]", "t = Table([x, y])")]     # 21 statements, for 5-step histories
 
 
 def _histories(n, ops, only_len=None):
@@ -104,7 +103,7 @@ def cases(tier, seed):
     full_n, core_n = (3, 4) if tier == 'quick' else (4, 5)
     for h in _histories(full_n, OPS):
         yield {'hist': h}
-    for h in _histories(core_n, CORE if core_n == 4 else CORE5, only_len=core_n):
+    for h in _histories(core_n, CORE, only_len=core_n):
         yield {'hist': h}
 
 
@@ -294,7 +293,7 @@ def evaluate(case):
         elif not _write_step(env, src, name, origin, replaced, hist, fails):
             break
     hist = '; '.join(done)
-    _stress(env, origin, replaced, hist, fails, 12 if len(case['hist']) <= 4 else 8)
+    _stress(env, origin, replaced, hist, fails, 12)
     return fails
 
 
@@ -315,7 +314,7 @@ if __name__ == '__main__':
               'every history an identity-reuse stress on brand-new 2- and 3-element vectors (held alive, written twice). '
               'distinct = distinct histories containing a write or a del',
          bound=lambda tier: {'max_steps_full_alphabet': 3 if tier == 'quick' else 4,
-                             'max_steps_core_alphabet': '4 (23 statements)' if tier == 'quick' else '5 (21 statements)',
+                             'max_steps_core_alphabet(23 statements)': 4 if tier == 'quick' else 5,
                              'vector_len': 3, 'handles': 'x,y,z,t,u,tup',
-                             'stress_vectors_per_size': '12 (8 for 5-step histories), all held alive, each written twice'},
+                             'stress_vectors_per_size': '12, all held alive, each written twice'},
          nontrivial=nontrivial)
